@@ -121,6 +121,7 @@ class Ctx:
         self.checker_cmd = ""
         self.corr_lines = 0
         self.driver_ok = True
+        self.drift = []  # 'file::function' whose normalised AST differs from the committed baseline
         self.search_only = False
         self.boost = 1  # multiplied when the proof/correspondence broke: failing-input search budget
 
